@@ -629,7 +629,7 @@ def task_stress(ctx: Ctx, rounds: int) -> None:
 
 def tasks(tier: str, seed: int) -> list[Task]:
     thorough = tier == "thorough"
-    out = [Task("task_hist", {"shard": i, "n": 300 if not thorough else 3000}, f"hist-{i}") for i in range(8)]
+    out = [Task("task_hist", {"shard": i, "n": 220 if not thorough else 3000}, f"hist-{i}") for i in range(8)]
     out += [Task("task_sched", {"shard": i, "n": 200 if not thorough else 2000}, f"sched-{i}") for i in range(6)]
     out = [Task("task_evict", {"seed": seed, "part": i}, f"evict-{i}") for i in range(4)] + out
     out.append(Task("task_stress", {"rounds": 2 if not thorough else 30}, "stress"))
